@@ -404,6 +404,49 @@ class ArrayT(T):
         return SArray(z3.Array(ctx.fresh_name(name), z3.IntSort(), z3.IntSort()))
 
 
+class SUnion(Sym):
+    """list element of one of several types, not yet decided (only produced for model concretisation)"""
+    pytype = object
+
+    def __init__(self, tag, alts):
+        self.tag, self.alts = tag, alts
+
+
+class OneOfElem(T):
+    """element of a symbolic-length list that is a value of one of several types (e.g. script commands: opcode int or data bytes).
+    Which one is an uninterpreted function of the position; materialising an element forks on it (or, inside an invariant /
+    fold unfolding, takes the alternative the path has already decided)."""
+
+    def __init__(self, alts):
+        self.alts = list(alts)
+
+    def fresh(self, ctx, name):
+        i = ctx.choose([('alt%d' % j, None) for j in range(len(self.alts))])
+        return self.alts[i].fresh(ctx, name)
+
+    def from_prefix(self, ctx, rid, k):
+        kt = z3.IntVal(k) if isinstance(k, int) else k
+        tag = z3.Function('elemtag_%s' % rid, z3.IntSort(), z3.IntSort())(kt)
+        if ctx is None:
+            return SUnion(tag, [a.from_prefix(None, '%s|%d' % (rid, j), k) for j, a in enumerate(self.alts)])
+        ctx.fact(z3.And(tag >= 0, tag < len(self.alts)))
+        if ctx.no_fork:
+            for j in range(len(self.alts)):
+                if ctx.check(tag != j) == z3.unsat:
+                    return self.alts[j].from_prefix(ctx, '%s|%d' % (rid, j), k)
+            from .ctx import Unsupported
+            raise Unsupported('kind of list element %s[%s] is not decided on this path' % (rid, kt))
+        j = ctx.choose([('alt%d' % i, tag == i) for i in range(len(self.alts))])
+        return self.alts[j].from_prefix(ctx, '%s|%d' % (rid, j), k)
+
+    def sample(self, rng):
+        from .fuzz import sample as _s
+        return _s(rng.choice(self.alts), rng)
+
+    def restrict(self, ctx, value):
+        return None
+
+
 class OpaqueElem(T):
     """list element about which only its position in the list is known (keys, signatures as abstract objects)"""
 
